@@ -99,7 +99,8 @@ def run(ctx):
                              % ("profiles 1..4 x 3 fullness values" if thorough else "profile AAC-LC, fullness 0x7ff"),
                              "DecodeADTSHeader: every junk length 0..200 x 8 patterns",
                              "SetAACDescriptor: 6 object types (3 supported) x 13 table frequencies + explicit values; "
-                             "DecodeBox on each produced entry, truncations and byte mutations"],
+                             "DecodeBox on each produced entry, truncations and byte mutations",
+                             "bits.Writer / bits.Reader against the bit-list reading: %d random op sequences each" % (10 * n)],
     }
     ctx.cov["samples"] += [l[:300] for l in lines[5000:5002]] + [l[:300] for l in lines if l.startswith("HX\t")][:1] \
         + [l[:300] for l in lines if l.startswith("HD\t")][700:702] + [l[:300] for l in lines[-2:]]
